@@ -23,6 +23,8 @@ class Builder:
         self.inputs = []  # (name, elem, symshape)
         self.outputs = []  # names
         self.out_elem = {}
+        self.extra_syms = set()
+        self.pending_vi = None
         self.value_info = []  # (name, elem, symshape) truthful intermediate annotations
         self.shape_feeds = {}  # name -> symbolic int list (entries int | sym | ("u",k) | ("prod", [...]))
         self.n = 0
@@ -299,8 +301,8 @@ def t_expand_binary(b, cur, cs):
     r = len(cs)
     if any(d is None for d in cs):
         return None
-    kind = rng.choice(["same", "lead", "other_bigger", "const"])
-    op = rng.choice(["Add", "Mul", "Sub"])
+    kind = rng.choice(["same", "lead", "other_bigger", "const", "dyn", "dyn"])
+    op = rng.choice(["Add", "Mul", "Sub", "Div"])
     if kind == "same":
         other = b.add_input(TensorProto.FLOAT, list(cs), "y")
         ocs = list(cs)
@@ -330,6 +332,27 @@ def t_expand_binary(b, cur, cs):
             target = b.node("Shape", [other])
         else:
             target = b.node("Concat", [piece_for_dim(b, cur, cs, i) if not (is_static(cs[i]) and cs[i] == 1) else piece_for_dim(b, other, ocs, i) for i in range(r)], {"axis": 0})
+    elif kind == "dyn":
+        # the Expand target is a run-time graph input that really changes the result: a new leading dim K
+        # and/or a static 1 of `cur` stretched to K; the other operand has cur's shape, so it does not supply it
+        ocs = list(cs)
+        other = b.add_input(TensorProto.FLOAT, ocs, "y")
+        stretch = [i for i, d in enumerate(cs) if is_static(d) and d == 1]
+        tv = list(cs)
+        res = list(cs)
+        mode = rng.choice(["lead", "stretch", "both"]) if stretch else "lead"
+        if mode in ("stretch", "both"):
+            i = rng.choice(stretch)
+            tv[i] = "K"
+            res[i] = "K"
+        if mode in ("lead", "both"):
+            tv = ["K"] + tv
+            res = ["K"] + res
+        target = b.add_input(TensorProto.INT64, [len(tv)], "s")
+        b.shape_feeds[target] = tv
+        b.extra_syms.add("K")
+        if rng.random() < 0.4:
+            b.pending_vi = list(res)  # truthful annotation of the Expand output (strategy 2)
     else:
         if not all(is_static(d) for d in cs):
             return None
@@ -341,6 +364,11 @@ def t_expand_binary(b, cur, cs):
         target = b.ci64(tv)
         res = [1] * (len(tv) - r) + list(cs)
     e = b.node("Expand", [cur, target])
+    if getattr(b, "pending_vi", None) is not None:
+        evi = [d if not (isinstance(d, int) and False) else d for d in b.pending_vi]
+        # the Expand output's own dims: cur's dims stretched — exactly `res` when the other operand has cur's shape
+        b.value_info.append((e, TensorProto.FLOAT, evi))
+        b.pending_vi = None
     ins = [e, other] if rng.random() < 0.5 else [other, e]
     y = b.node(op, ins)
     b.meta["expand_binary"] = True
@@ -399,7 +427,7 @@ def finish(b: Builder, out_ranks=None):
 
 
 def symbols_of(b: Builder):
-    syms, unn = set(), set()
+    syms, unn = set(b.extra_syms), set()
     for _, _, s in b.inputs:
         for d in s:
             if isinstance(d, str):
